@@ -210,6 +210,20 @@ def tag_spellings():
         "/version": {"get": {"operationId": "getVersion", "tags": ["Default"], "responses": ok}}})
 
 
+def synthetic_name_collisions():
+    """component names that coincide with the names the generator invents for inline request / response bodies of operations"""
+    comp = {n: {"type": "object", "properties": {"marker" + str(i): {"type": "string"}}} for i, n in enumerate(
+        ["ListPets200Response", "ListPetsResponse", "ListPetsResponse200", "CreatePetRequestBody", "CreatePetRequest", "CreatePetBody", "CreatePet201Response"])}
+    comp["Uses"] = {"type": "object", "properties": {"u" + str(i): R(n) for i, n in enumerate(list(comp))}}
+    inline_resp = {"type": "object", "properties": {"items": {"type": "array", "items": {"type": "string"}}, "total": {"type": "integer"}}}
+    inline_body = {"type": "object", "required": ["name"], "properties": {"name": {"type": "string"}, "age": {"type": "integer"}}}
+    return doc("Synthetic", comp, {
+        "/pets": {"get": {"operationId": "listPets", "responses": {"200": jresp(inline_resp)}},
+                  "post": {"operationId": "createPet", "requestBody": {"required": True, "content": {"application/json": {"schema": inline_body}}},
+                           "responses": {"201": jresp({"type": "object", "properties": {"id": {"type": "integer"}}})}}},
+        "/uses": {"get": {"operationId": "getUses", "responses": {"200": jresp(R("Uses"))}}}})
+
+
 REP = {
     "petstore": petstore,
     "unions": enums_and_unions,
@@ -222,6 +236,7 @@ REP = {
     "shared_params": shared_component_parameters,
     "multi2xx": several_success_codes,
     "tag_spellings": tag_spellings,
+    "synthetic": synthetic_name_collisions,
     "no_ops": no_operations,
     "no_schemas": no_schemas,
 }
